@@ -1173,4 +1173,141 @@ example : (Span.mk 0 6).subspan 1 (some 4) = some ⟨1, 4⟩ ∧ (Span.mk 1 4).s
     (Span.mk 3 2).elems [10,11,12,13,14,15] = [13,14] ∧ (Span.mk 0 6).subspan 3 (some 4) = none ∧
     (Span.mk 1 4).last 1 = some ⟨4, 1⟩ := by decide
 
+/-! ## round four: the sub-view functions of span.hh as they read in the source -/
+
+section SpanGen
+open DV.C14.Gen
+
+/-- arguments the C++ functions can be called with: an explicit count is not `dynamic_extent` -/
+def SpanOpG.wf : SpanOpG → Prop
+  | .sub _ (some c) => c < dynExt
+  | .tsub _ (some c) => c < dynExt
+  | _ => True
+
+/-- the static extent of a span is dynamic or equals its size -/
+def extOk (ext : Option Nat) (s : Span) : Prop := ext = none ∨ ext = some s.size
+
+/-- REFINEMENT: each of the six sub-view member functions of span.hh — precondition, pointer offset and size of the
+    returned span exactly as regenerated from the source, for a span with a static or a dynamic extent — implements the
+    abstract operation `Span.apply` (about which `span_apply_inside`, `subspan_elements`, `first_last_elements` are
+    proved), and the static extent it declares for the result (`Count`, `subspan_extent(Offset,Count)`, or dynamic)
+    is again consistent with the size of the result -/
+theorem span_gen_refines (ext : Option Nat) (s : Span) (op : SpanOpG) (hs : s.size < dynExt) (he : extOk ext s)
+    (hw : op.wf) :
+    (s.applyG ext op).map (·.2) = s.apply op.erase ∧
+    ∀ e t, s.applyG ext op = some (e, t) → extOk e t := by
+  have hext : optNat ext = dynExt ∨ optNat ext = s.size := by
+    rcases he with h | h <;> simp [h, optNat]
+  cases op with
+  | first c =>
+    simp only [Span.applyG, SpanOpG.erase, Span.apply, Span.first, mkSub, span_first_pre, span_first_off, span_first_size]
+    by_cases h : c ≤ s.size <;> simp [h, extOk]
+  | last c =>
+    simp only [Span.applyG, SpanOpG.erase, Span.apply, Span.last, mkSub, span_last_pre, span_last_off, span_last_size]
+    by_cases h : c ≤ s.size <;> simp [h, extOk]
+  | tfirst c =>
+    simp only [Span.applyG, SpanOpG.erase, Span.apply, Span.first, mkSub, span_tfirst_pre, span_tfirst_off, span_tfirst_size]
+    by_cases h : c ≤ s.size
+    · simp only [h, decide_true, if_true, Option.map_some]
+      refine ⟨by simp, ?_⟩
+      intro e t ht
+      simp only [Option.some.injEq, Prod.mk.injEq] at ht
+      obtain ⟨h1, h2⟩ := ht
+      subst h1; subst h2
+      exact Or.inr rfl
+    · simp [h]
+  | tlast c =>
+    simp only [Span.applyG, SpanOpG.erase, Span.apply, Span.last, mkSub, span_tlast_pre, span_tlast_off, span_tlast_size]
+    by_cases h : c ≤ s.size
+    · simp only [h, decide_true, if_true, Option.map_some]
+      refine ⟨by simp, ?_⟩
+      intro e t ht
+      simp only [Option.some.injEq, Prod.mk.injEq] at ht
+      obtain ⟨h1, h2⟩ := ht
+      subst h1; subst h2
+      exact Or.inr rfl
+    · simp [h]
+  | sub o c =>
+    cases c with
+    | none =>
+      simp only [Span.applyG, SpanOpG.erase, Span.apply, Span.subspan, mkSub, span_sub_pre, span_sub_off, span_sub_size, optNat,
+        Option.getD_none]
+      by_cases h : o ≤ s.size <;> simp [h, extOk]
+    | some c =>
+      have hc : c ≠ dynExt := Nat.ne_of_lt hw
+      simp only [Span.applyG, SpanOpG.erase, Span.apply, Span.subspan, mkSub, span_sub_pre, span_sub_off, span_sub_size, optNat,
+        Option.getD_some]
+      by_cases h1 : o ≤ s.size <;> by_cases h2 : c ≤ s.size - o <;> simp [h1, h2, hc, extOk]
+  | tsub o c =>
+    cases c with
+    | none =>
+      simp only [Span.applyG, SpanOpG.erase, Span.apply, Span.subspan, mkSub, span_tsub_pre, span_tsub_off, span_tsub_size,
+        span_subspan_extent, optNat, Option.getD_none]
+      by_cases h : o ≤ s.size
+      · refine ⟨by simp [h], ?_⟩
+        intro e t ht
+        rcases he with he | he
+        · subst he
+          simp [h, natOpt] at ht
+          obtain ⟨h1, h2⟩ := ht
+          subst h1; subst h2
+          simp [extOk]
+        · subst he
+          have h3 : s.size - o ≠ dynExt := by omega
+          have hs' : s.size ≠ dynExt := Nat.ne_of_lt hs
+          simp [h, natOpt, h3, hs'] at ht
+          obtain ⟨h1, h2⟩ := ht
+          subst h1; subst h2
+          simp [extOk]
+      · simp [h]
+    | some c =>
+      have hc : c ≠ dynExt := Nat.ne_of_lt hw
+      simp only [Span.applyG, SpanOpG.erase, Span.apply, Span.subspan, mkSub, span_tsub_pre, span_tsub_off, span_tsub_size,
+        span_subspan_extent, optNat, Option.getD_some]
+      by_cases h1 : o ≤ s.size <;> by_cases h2 : c ≤ s.size - o <;> simp [h1, h2, hc, extOk, natOpt]
+
+/-- the same for whole histories (induction): a sequence of calls of the member functions as they read in span.hh
+    computes the span `Span.run` computes for the abstract operations (to which `span_history` applies: inside the initial
+    span, element `i` = element `accumulated offset + i`), and the declared static extent stays consistent -/
+theorem span_run_gen_refines (ops : List SpanOpG) (ext : Option Nat) (s : Span) (hs : s.size < dynExt) (he : extOk ext s)
+    (hw : ∀ op, op ∈ ops → op.wf) :
+    (s.runG ext ops).map (·.2) = s.run (ops.map SpanOpG.erase) ∧
+    ∀ e t, s.runG ext ops = some (e, t) → extOk e t := by
+  induction ops generalizing ext s with
+  | nil =>
+    refine ⟨rfl, ?_⟩
+    intro e t ht
+    simp only [Span.runG, Option.some.injEq, Prod.mk.injEq] at ht
+    obtain ⟨h1, h2⟩ := ht
+    subst h1; subst h2
+    exact he
+  | cons op ops ih =>
+    obtain ⟨h1, h2⟩ := span_gen_refines ext s op hs he (hw op (by simp))
+    simp only [Span.runG, List.map_cons, Span.run]
+    cases hg : s.applyG ext op with
+    | none =>
+      rw [hg] at h1
+      simp only [Option.map_none] at h1
+      rw [← h1]
+      exact ⟨rfl, fun e t ht => by cases ht⟩
+    | some et =>
+      obtain ⟨e1, t1⟩ := et
+      rw [hg] at h1
+      simp only [Option.map_some] at h1
+      rw [← h1]
+      have hin := span_apply_inside s t1 op.erase h1.symm
+      have hs1 : t1.size < dynExt := by omega
+      exact ih e1 t1 hs1 (h2 e1 t1 hg) (fun op' hop' => hw op' (List.mem_cons_of_mem _ hop'))
+
+-- the six functions on a span of 9 elements with static extent 9: `subspan<1>()` declares extent 8, `last<4>()` extent 4,
+-- `first(2)` a dynamic extent; the abstract history gives the same span
+example : (Span.mk 0 9).runG (some 9) [.tsub 1 none, .tlast 4, .first 2, .sub 1 none] = some (none, ⟨6, 1⟩) ∧
+    (Span.mk 0 9).run [.sub 1 none, .last 4, .first 2, .sub 1 none] = some ⟨6, 1⟩ ∧
+    (Span.mk 0 9).applyG (some 9) (.tsub 1 none) = some (some 8, ⟨1, 8⟩) ∧
+    (Span.mk 0 9).applyG (some 9) (.tsub 1 (some 3)) = some (some 3, ⟨1, 3⟩) ∧
+    (Span.mk 0 9).applyG none (.tsub 1 none) = some (none, ⟨1, 8⟩) ∧
+    (Span.mk 0 9).applyG (some 9) (.tlast 10) = none := by decide
+
+end SpanGen
+
 end DV.C14
